@@ -6,7 +6,7 @@
 //!    < k (value and derivatives), sensitivities to dual data equal the spline of the unit data.
 //! Replay aid / bounded stand-in only.
 use crate::report;
-use rateslib::dual::{Dual, Gradient1};
+use rateslib::dual::{Dual, Dual2, Gradient1, Gradient2};
 use rateslib::splines::{bspldnev_single_f64, bsplev_single_f64, PPSpline};
 
 fn close(a: f64, b: f64) -> bool {
@@ -205,6 +205,30 @@ fn probe_solve(func: &str) -> bool {
                     }
                 }
             }
+            // dual-number abscissa: sensitivities are the spline's own first (and second) derivatives, chain rule on x
+            for x0 in [0.3, 2.0, 3.7, 5.0] {
+                for m in 0..k.min(3) {
+                    let d1 = s.ppdnev_single(&x0, m + 1).unwrap();
+                    let d2 = s.ppdnev_single(&x0, m + 2).unwrap();
+                    let xd = Dual::new(x0, vec!["x".to_string()]);
+                    let got = s.ppdnev_single_dual(&xd, m).unwrap();
+                    let g = got.gradient1(vec!["x".to_string()])[0];
+                    if !close(g, d1) {
+                        report("probe", func, &format!("{}: ppdnev_single_dual(x={} tagged x, m={}): d/dx", what, x0, m), &format!("{}", g), &format!("{}", d1), false);
+                        return true;
+                    }
+                    // x = x0 + 2u: first derivative 2 s', second derivative 4 s''
+                    let mut xd2 = Dual2::new(x0, vec!["u".to_string()]);
+                    xd2 = &xd2 * 2.0 - x0;
+                    let got2 = s.ppdnev_single_dual2(&xd2, m).unwrap();
+                    let g1 = got2.gradient1(vec!["u".to_string()])[0];
+                    let g2 = got2.gradient2(vec!["u".to_string()])[[0, 0]];
+                    if !close(g1, 2.0 * d1) || !close(g2, 4.0 * d2) {
+                        report("probe", func, &format!("{}: ppdnev_single_dual2(x = {} + 2u, m={}): (d/du, d2/du2)", what, x0, m), &format!("({}, {})", g1, g2), &format!("({}, {})", 2.0 * d1, 4.0 * d2), false);
+                        return true;
+                    }
+                }
+            }
             // mismatched site counts
             let mut s2 = PPSpline::<f64>::new(k, t.clone(), None);
             if s2.csolve(&tau[1..], &y[1..], left_n, right_n, false).is_ok() || s2.csolve(&tau, &y[1..], left_n, right_n, false).is_ok() {
@@ -241,7 +265,7 @@ pub fn probe(func: &str) -> bool {
     std::panic::set_hook(Box::new(|_| {}));
     match func {
         "bsplev_single_f64" | "bspldnev_single_f64" => probe_basis(func) || probe_solve(func),
-        "bsplmatrix" | "csolve" | "ppdnev_single" => probe_solve(func) || probe_basis(func),
+        "bsplmatrix" | "csolve" | "ppdnev_single" | "ppdnev_single_dual" | "ppdnev_single_dual2" | "bspldnev_single_dual" | "bspldnev_single_dual2" | "mapped_value" => probe_solve(func) || probe_basis(func),
         _ => false,
     }
 }
